@@ -1,8 +1,80 @@
 (** C05 — Reported statistics are the exact order statistics of the samples.
-    Statements only; each closed by [exact] of a lemma in Proofs/Stats.v. *)
+    Statements only; each closed by [exact] of a lemma in Proofs/Stats.v.
+
+    [compute_stats fixed dbg sv inp] is the model of [BenchContext::compute_stats]
+    ([fixed = true]: the current code; [dbg]: overflow checks on/off); [sv] is
+    the sorted view of the samples the sort produced.  All theorems hold for
+    *every* admissible view, i.e. every permutation of the indexed samples that
+    is sorted by duration ([C05_admissible_meaning]). *)
+From Coq Require Import Permutation Sorted.
 From DivanV Require Import Base.Res Model.Stats Proofs.Stats.
 Local Open Scope N_scope.
 
+Theorem C05_admissible_meaning : forall durs sv,
+  admissibleb durs sv = true <->
+  Permutation sv (indexed durs) /\ StronglySorted (fun a b => snd a <= snd b) sv.
+Proof. exact admissibleb_iff. Qed.
+Print Assumptions C05_admissible_meaning.
+
+(** The specification functions: least and greatest element, the sorted
+    permutation of the durations, and the four figures in terms of them. *)
+Theorem C05_spec_meaning : forall durs,
+  (durs <> [] -> In (list_min durs) durs /\ Forall (fun y => list_min durs <= y) durs) /\
+  (durs <> [] -> In (list_max durs) durs /\ Forall (fun y => y <= list_max durs) durs) /\
+  Permutation (sort_vals durs) durs /\ StronglySorted N.le (sort_vals durs) /\
+  (forall s, spec_fastest durs s = list_min durs / s) /\
+  (forall s, spec_slowest durs s = list_max durs / s) /\
+  (forall s, durs <> [] -> spec_median durs s =
+     if Nat.even (length durs)
+     then ((nth (length durs / 2 - 1) (sort_vals durs) 0 + nth (length durs / 2) (sort_vals durs) 0) / 2) / s
+     else nth (length durs / 2) (sort_vals durs) 0 / s) /\
+  (forall s, s * N.of_nat (length durs) <> 0 ->
+     spec_mean durs s = sum_list durs / (s * N.of_nat (length durs))) /\
+  (forall s, spec_median [] s = 0 /\ spec_mean [] s = 0 /\ spec_fastest [] s = 0 /\ spec_slowest [] s = 0).
+Proof. exact spec_meaning. Qed.
+Print Assumptions C05_spec_meaning.
+
+(** fastest / slowest = least / greatest duration / sample size; median = the
+    middle sample (floor of the mean of the two middle ones for an even count)
+    / sample size; mean = total duration / total iteration count; all in floor
+    division on integer picoseconds.  Guard: the u128 total and the u64
+    iteration count do not overflow ([no_overflow]). *)
+Theorem C05_order_stats : forall dbg sv inp st,
+  admissibleb (in_durs inp) sv = true -> no_overflow inp ->
+  compute_stats true dbg sv inp = Ok st ->
+  fastest (st_time st) = spec_fastest (in_durs inp) (in_size inp) /\
+  slowest (st_time st) = spec_slowest (in_durs inp) (in_size inp) /\
+  median (st_time st) = spec_median (in_durs inp) (in_size inp) /\
+  mean (st_time st) = spec_mean (in_durs inp) (in_size inp) /\
+  st_iter_count st = in_size inp * N.of_nat (length (in_durs inp)) /\
+  st_sample_count st = N.of_nat (length (in_durs inp)) mod 2 ^ 32.
+Proof. exact order_stats. Qed.
+Print Assumptions C05_order_stats.
+
+(** The inequalities hold with the floor divisions (mean divides the total by
+    the total count, the others one sample by the size). *)
+Theorem C05_bounds : forall dbg sv inp st,
+  admissibleb (in_durs inp) sv = true -> size_ok inp -> no_overflow inp ->
+  compute_stats true dbg sv inp = Ok st ->
+  fastest (st_time st) <= median (st_time st) <= slowest (st_time st) /\
+  fastest (st_time st) <= mean (st_time st) <= slowest (st_time st).
+Proof. exact bounds. Qed.
+Print Assumptions C05_bounds.
+
+(** No panic and every f64 field finite (neither NaN nor infinite), for all
+    inputs in which a sample size of 0 comes with no samples ([size_ok]); a
+    build without overflow checks needs no further guard.  Includes the empty
+    sample list, sample size 0, no counters. *)
+Theorem C05_total_no_nan : forall dbg sv inp,
+  admissibleb (in_durs inp) sv = true -> size_ok inp -> (dbg = true -> no_overflow inp) ->
+  exists st, compute_stats true dbg sv inp = Ok st /\
+             forallb xq_is_fin (all_xq st) = true /\ existsb xq_is_nan (all_xq st) = false.
+Proof. exact total_no_nan. Qed.
+Print Assumptions C05_total_no_nan.
+
+(** Without [size_ok] the clause is false: samples with sample size 0 make the
+    current code divide by zero (not reachable from the sampling loop, which
+    returns early for a sample size of 0). *)
 Theorem C05_total_refuted_zero_sample_size :
   forall dbg, compute_stats true dbg [(0, 1)]
     {| in_size := 0; in_durs := [1]; in_allocs := []; in_counters := [] |} = Panic DivByZero.
